@@ -233,7 +233,7 @@ package whispertool
 //@   invariant chain: forall j :: 0 <= j && j + 1 < i ==> aa[j+1].offset == (aa[j].offset + 12 * aa[j].numberOfPoints) fmod 4294967296
 
 //@ spec validHeader(h Header) bool = 1 <= h.aggregationMethod && h.aggregationMethod <= 6
-//@        && 0.0 <= h.xFilesFactor && h.xFilesFactor <= 1.0 && wellFormed(h.archiveInfoList)
+//@        && 0.0 <= h.xFilesFactor && h.xFilesFactor <= 1.0 && wellFormed(h.archiveInfoList) && h.archiveCount == len(h.archiveInfoList)
 
 //@ func NewHeader
 //@   props C07
@@ -824,3 +824,87 @@ package whispertool
 //@                 && pts[tsDiffCnt(ts, ts2, k)].Time == tsTime(ts.fromTime, k, ts.step) && bits(pts[tsDiffCnt(ts, ts2, k)].Value) == bits(ts.values[k])
 //@                 && bits(pts2[tsDiffCnt(ts, ts2, k)].Value) == bits(ts2.values[k])
 //@                 && (ts.fromTime == ts2.fromTime ==> pts2[tsDiffCnt(ts, ts2, k)].Time == tsTime(ts.fromTime, k, ts.step))
+
+// ---------------------------------------------------------------- handles: open, lock, sync, close (C05, C13)
+
+//@ func (*Whisper).openAndLockFile
+//@   props C13 C05
+//@   requires w != nil
+//@   modifies w.file, ghost(nopen, 0), ghost(nlocked, 0)
+//@   ensures ok: result == nil ==> w.file != nil && fresh(w.file) && ghost(open, w.file) == 1
+//@                 && (w.flock ==> ghost(locked, w.file) == 1 && ghost(lockmode, w.file) == 2) && (!w.flock ==> ghost(locked, w.file) == 0)
+//@                 && ghost(nopen, 0) == old(ghost(nopen, 0)) + 1 && ghost(nlocked, 0) == old(ghost(nlocked, 0)) + ite(w.flock, 1, 0)
+//@   ensures failed: result != nil ==> ghost(nopen, 0) == old(ghost(nopen, 0)) && ghost(nlocked, 0) == old(ghost(nlocked, 0))
+//@   ensures kind: result == nil || isio(result) || notexist(result) || isother(result)
+
+//@ func (*Whisper).Sync
+//@   props C05
+//@   requires w != nil && w.fileBuf != nil && w.file != nil && ghost(fbfile, w.fileBuf) == w.file
+//@   modifies disk(w.file)
+//@   ensures synced: result == nil && fsize(w.fileBuf) <= old(dsize(w.file)) ==> dsize(w.file) == old(dsize(w.file))
+//@                 && (forall k :: 0 <= k && k < fsize(w.fileBuf) ==> dbyte(w.file, k) == fbyte(w.fileBuf, k))
+//@   ensures kind: result == nil || isio(result)
+
+//@ func (*Whisper).Close
+//@   props C05 C13
+//@   requires w != nil && w.file != nil
+//@   modifies ghost(open, w.file), ghost(locked, w.file), ghost(nopen, 0), ghost(nlocked, 0)
+//@   ensures released: ghost(open, w.file) == 0 && ghost(locked, w.file) == 0
+//@                 && ghost(nopen, 0) == old(ghost(nopen, 0)) - old(ghost(open, w.file)) && ghost(nlocked, 0) == old(ghost(nlocked, 0)) - old(ghost(locked, w.file))
+
+//@ spec hdrInBuf(r bytes, h Header) bool = slotTime(r, 0) == h.aggregationMethod fmod 4294967296 && slotTime(r, 4) == h.maxRetention fmod 4294967296
+//@        && slotTime(r, 8) == bits(h.xFilesFactor) && slotTime(r, 12) == h.archiveCount
+//@        && (forall i :: 0 <= i && i < len(h.archiveInfoList) ==> slotTime(r, 16 + 12 * i) == h.archiveInfoList[i].offset
+//@             && slotTime(r, 20 + 12 * i) == h.archiveInfoList[i].secondsPerPoint fmod 4294967296 && slotTime(r, 24 + 12 * i) == h.archiveInfoList[i].numberOfPoints)
+
+//@ func (*Header).Size
+//@   props C06
+//@   requires h != nil
+//@   ensures size: result == 16 + 12 * h.archiveCount
+
+//@ func (*Header).ExpectedFileSize
+//@   props C06 C15
+//@   requires h != nil && validHeader(*h)
+//@   ensures size: result == fileEnd(h.archiveInfoList)
+//@ loop (*Header).ExpectedFileSize#0
+//@   invariant bounds: 0 <= iter && iter <= len(h.archiveInfoList)
+//@   invariant first: iter == 0 ==> sz == 16 + 12 * len(h.archiveInfoList)
+//@   invariant run: iter > 0 ==> sz == h.archiveInfoList[iter - 1].offset + 12 * h.archiveInfoList[iter - 1].numberOfPoints
+
+//@ func (*Whisper).putHeader
+//@   props C06 C05
+//@   requires w != nil && w.fileBuf != nil && validHeader(w.header) && w.pageSize >= 512 && w.pageSize <= 1073741824
+//@   modifies fb(w.fileBuf)
+//@   ensures written: result == nil ==> hdrInBuf(frow(w.fileBuf), w.header)
+//@   ensures frame: forall k :: k >= 16 + 12 * len(w.header.archiveInfoList) ==> fbyte(w.fileBuf, k) == old(fbyte(w.fileBuf, k))
+//@   ensures kind: 16 + 12 * len(w.header.archiveInfoList) <= fsize(w.fileBuf) ==> result == nil || isio(result)
+
+//@ func (*Whisper).readHeader
+//@   props C07 C14 C15
+//@   requires w != nil && w.fileBuf != nil && w.pageSize >= 512 && w.pageSize <= 1073741824
+//@   modifies w.header
+//@   allocates <= w.pageSize + 2 * fsize(w.fileBuf)
+//@   ensures ok: result == nil ==> validHeader(w.header) && hdrInBuf(frow(w.fileBuf), w.header) && 16 + 12 * len(w.header.archiveInfoList) <= fsize(w.fileBuf)
+
+//@ spec handleLive(w *Whisper) bool = handleOK(w) && w.file != nil && ghost(fbfile, w.fileBuf) == w.file && ghost(open, w.file) == 1
+//@        && (w.flock ==> ghost(locked, w.file) == 1 && ghost(lockmode, w.file) == 2) && fsize(w.fileBuf) <= dsize(w.file)
+
+//@ func Open
+//@   props C13 C07 C15 C05
+//@   modifies ghost(nopen, 0), ghost(nlocked, 0)
+//@   allocates <= 1073741824 + 2 * 4294967295
+//@   ensures ok: result1 == nil ==> result0 != nil && fresh(result0) && handleLive(result0) && hdrInBuf(frow(result0.fileBuf), result0.header)
+//@                 && ghost(nopen, 0) == old(ghost(nopen, 0)) + 1
+//@                 && (forall k :: 0 <= k && k < fsize(result0.fileBuf) ==> fbyte(result0.fileBuf, k) == dbyte(result0.file, k))
+//@   ensures[C13] no_leak: result1 != nil ==> result0 == nil && ghost(nopen, 0) == old(ghost(nopen, 0)) && ghost(nlocked, 0) == old(ghost(nlocked, 0))
+
+//@ func Create
+//@   props C13 C07 C05 C06 C20
+//@   modifies archiveInfoList[0:len(archiveInfoList)], ghost(nopen, 0), ghost(nlocked, 0)
+//@   ensures ok: result1 == nil ==> result0 != nil && fresh(result0) && handleLive(result0) && hdrInBuf(frow(result0.fileBuf), result0.header)
+//@                 && result0.header.aggregationMethod == aggregationMethod && bits(result0.header.xFilesFactor) == bits(xFilesFactor)
+//@                 && result0.header.archiveInfoList === archiveInfoList && wellFormed(archiveInfoList)
+//@                 && fsize(result0.fileBuf) == fileEnd(archiveInfoList) && dsize(result0.file) == fileEnd(archiveInfoList)
+//@                 && ghost(nopen, 0) == old(ghost(nopen, 0)) + 1
+//@   ensures[C13] no_leak: result1 != nil ==> result0 == nil && ghost(nopen, 0) == old(ghost(nopen, 0)) && ghost(nlocked, 0) == old(ghost(nlocked, 0))
+//@   ensures[C07] invalid: !(1 <= aggregationMethod && aggregationMethod <= 6 && 0.0 <= xFilesFactor && xFilesFactor <= 1.0 && wellFormed(archiveInfoList)) ==> result1 != nil
